@@ -58,7 +58,9 @@ def stack_strategy(draw, tier):
     if stored == "uint16" and read == "uint8":
         read = "uint16"
     return {"dims": dims, "c": c, "dtype": dtype, "fmt": fmt, "save": save, "read": read,
-            "pattern": "index" if big else draw(st.sampled_from(["index", "index", "random"])), "seed": draw(st.integers(0, 2 ** 31 - 1)),
+            "pattern": "index" if big else draw(st.sampled_from(["index", "index", "random"])),
+            # how the caller's array lies in memory: C order, Fortran order, or a transposed / strided view of a bigger array
+            "layout": draw(st.sampled_from(["C", "C", "F", "transposed-view", "strided-view"])), "seed": draw(st.integers(0, 2 ** 31 - 1)),
             "compression": draw(st.booleans())}
 
 
@@ -103,6 +105,17 @@ def run_stack(case, ctx):
     from swcgeom.images.io import NDArrayImageStack, read_imgs, save_tiff
 
     arr = _make_array(case)
+    layout = case.get("layout", "C")
+    if layout == "F":
+        arr = np.asfortranarray(arr)
+    elif layout == "transposed-view":
+        arr = np.ascontiguousarray(np.swapaxes(arr, 0, 2)).swapaxes(0, 2)  # same values, a (Z,Y,X[,C])-ordered buffer seen as (X,Y,Z[,C])
+    elif layout == "strided-view":
+        big_buf = np.zeros((arr.shape[0] * 2,) + arr.shape[1:], dtype=arr.dtype)
+        big_buf[::2] = arr
+        arr = big_buf[::2]
+    if layout != "C" and arr.size > 1:
+        ctx.cls("array-not-c-contiguous")
     shape4 = tuple(case["dims"]) + (case["c"] or 1,)
     fmt, save, read = case["fmt"], case["save"], case["read"]
     stored = save or case["dtype"]
@@ -162,6 +175,9 @@ def raster_strategy(draw, tier):
     co = st.integers(-64, 64).map(lambda v: v / 8.0)
     xyz = [[draw(co), draw(co), draw(co)] for _ in range(n)]
     r = [draw(st.integers(5, 48)) / 16.0 for _ in range(n)]
+    if draw(st.integers(0, 5)) == 0:
+        # a node of radius zero (SWC files have them): the cones next to it taper to a point
+        r[draw(st.integers(0, n - 1))] = 0.0
     # resolutions are binary fractions (voxel centres add up exactly); several do not divide the bounding box evenly
     res = draw(st.sampled_from([0.5, 1, 1, 2, [1, 2, 0.5], [0.5, 1, 2], [2, 1, 1], 1.5, 0.75, 2.5, [1, 1, 1.5], [1, 1, 3.5], [1.5, 1, 2.5]]))
     save = draw(st.integers(0, 3)) == 0
@@ -178,6 +194,9 @@ def raster_strategy(draw, tier):
     case = {"parents": parents, "xyz": xyz, "r": r, "res": res, "save": save,
             # the same rasteriser object has already rasterised this very tree object, which was then edited in place
             "raster_before": draw(st.sampled_from([None, None, None, "columns", "handles"])),
+            # the rasteriser object rasterised another neuron, then a save of this one failed (no such directory) and was
+            # caught by the caller
+            "failed_save_before": draw(st.integers(0, 4)) == 0,
             # saving with the progress display on (the default of transform_and_save) or off
             "verbose": draw(st.booleans())}
     if draw(st.integers(0, 3)) == 0:
@@ -243,6 +262,25 @@ def run_raster(case, ctx):
                     setattr(tree.node(i), c, xyz[i, k])
         tree.get_ndata("r")[:] = r
         ctx.cls("rasterised-before-then-edited-in-place")
+    if case.get("failed_save_before"):
+        import contextlib
+        import io as _io2
+
+        shared_rasteriser = shared_rasteriser or ToImageStack(res)
+        other = Tree(3, id=np.arange(3, dtype=np.int32), pid=np.array([-1, 0, 1], dtype=np.int32), type=np.array([1, 3, 3], dtype=np.int32),
+                     x=np.array([40.0, 43.0, 43.0], dtype=np.float32), y=np.array([0.0, 0.0, 3.0], dtype=np.float32),
+                     z=np.array([5.0, 5.0, 6.0], dtype=np.float32), r=np.array([1.0, 1.5, 1.0], dtype=np.float32))
+        with contextlib.redirect_stdout(_io2.StringIO()), contextlib.redirect_stderr(_io2.StringIO()):
+            try:
+                shared_rasteriser(other)
+                shared_rasteriser.transform_and_save(os.path.join(ctx.tmpdir, "no-such-folder", "deeper", "x.tif"), tree, verbose=False)
+            except (KeyboardInterrupt, SystemExit):
+                raise
+            except BaseException:  # noqa
+                pass
+        ctx.cls("rasterised-after-a-failed-save")
+    if float(r.min()) == 0.0:
+        ctx.cls("raster:zero-radius-node")
     res3 = np.array([res] * 3 if not isinstance(res, list) else res, dtype=np.float64)
     aniso = isinstance(res, list)
     taper = any(p != -1 and r[i] != r[p] for i, p in enumerate(parents))
@@ -349,10 +387,11 @@ SUBCHECKS = [
     Sub("stack", stack_strategy, run_stack, quick=6000, thorough=40000, shards_quick=4,
         required={"fmt:tiff": 200, "fmt:tif-stack": 100, "fmt:nrrd": 100, "fmt:npy": 100, "size-1-axis": 200, "converted": 400,
                   "channels:3": 150, "channels:1": 150, "channels:None": 150, "path:f->u": 80, "path:u->f": 80,
-                  "stack-of-more-than-2Mi-voxels": 8, "large-stack-saved-with-a-dtype": 2}),
+                  "stack-of-more-than-2Mi-voxels": 8, "large-stack-saved-with-a-dtype": 2, "array-not-c-contiguous": 1000}),
     Sub("raster", raster_strategy, run_raster, quick=1500, thorough=12000, shards_quick=4,
         required={"res:aniso": 60, "taper": 100, "saved": 30, "res:0.5": 15, "res:2": 15, "raster:single-slice": 20,
                   "region-given-by-the-caller": 150, "region-as:float32": 40, "resolution-not-dividing-the-box": 300,
                   "saved-with-the-progress-display-on": 60,
-                  "numbering-with-a-child-before-its-parent": 200, "rasterised-before-then-edited-in-place": 300}),
+                  "numbering-with-a-child-before-its-parent": 200, "rasterised-before-then-edited-in-place": 300,
+                  "rasterised-after-a-failed-save": 150, "raster:zero-radius-node": 100}),
 ]
